@@ -101,3 +101,19 @@ Proof. vm_compute. auto. Qed.
 Theorem C26_text_no_panic : forall discard rem fs, tmsg discard rem fs <> Panic.
 Proof. exact t_no_panic. Qed.
 Print Assumptions C26_text_no_panic.
+
+(* ---- prototext unmarshalAny has a loop of its own (type_url: / value: / [type.url] { ... }).
+   Full statement (refuted by the faithful model, finding FL3): an Any body that gives Any.value a
+   value twice is rejected.  The expanded form tests seenTypeUrl and isExpanded but not seenValue. *)
+Theorem C26_text_any_value_twice_refuted :
+  exists evs, 2 <= value_sets evs /\ tany evs false false false = Accept.
+Proof. exact tany_value_twice_refuted. Qed.
+Print Assumptions C26_text_any_value_twice_refuted.
+
+Theorem C26_text_any_value_twice_except_FL3 : forall evs,
+  excl_FL3 evs = false -> 2 <= value_sets evs -> tany evs false false false <> Accept.
+Proof. exact tany_value_twice_except_FL3. Qed.
+Print Assumptions C26_text_any_value_twice_except_FL3.
+Example C26_text_any_value_twice_except_FL3_ex :
+  excl_FL3 [AE Accept; AV] = false /\ 2 <= value_sets [AE Accept; AV].
+Proof. cbn. auto. Qed.
